@@ -58,6 +58,7 @@ def instrument(repo, dest, flavour):
             n += k
             if k:
                 open(p, 'w').write(s2)
+    append_observer_count(dest)
     lib = os.path.join(dest, 'src', 'lib.rs')
     with open(lib, 'a') as fh:
         fh.write('\n#[allow(unused_imports)]\npub mod vf;\n')
@@ -69,6 +70,33 @@ def instrument(repo, dest, flavour):
         ct += '\n[workspace]\n'
     open(os.path.join(dest, 'Cargo.toml'), 'w').write(ct)
     return n
+
+
+def append_observer_count(dest):
+    """C10: read-only accessor appended to the copy's subjects/subject.rs: number of registered observers
+    (usize::MAX = the field could not be identified in this tree; the harness then skips the count)"""
+    p = os.path.join(dest, 'src', 'subjects', 'subject.rs')
+    if not os.path.exists(p):
+        return
+    s = open(p).read()
+    body = 'usize::MAX'
+    m = re.search(r'pub struct Subject\b.*?\{(.*?)\n\}', s, flags=re.S)
+    if m:
+        f = re.search(r'(\w+)\s*:\s*Arc<\s*(RwLock|Mutex)<\s*(?:HashMap|BTreeMap|Vec|VecDeque)\s*<[^\n]*Observer<', m.group(1))
+        if f:
+            body = 'self.%s.%s().unwrap().len()' % (f.group(1), 'read' if f.group(2) == 'RwLock' else 'lock')
+    s += '''
+impl<'a, Item> Subject<'a, Item>
+where
+  Item: Clone + Send + Sync,
+{
+  #[doc(hidden)]
+  pub fn vf_observer_count(&self) -> usize {
+    %s
+  }
+}
+''' % body
+    open(p, 'w').write(s)
 
 
 def main():
